@@ -47,8 +47,8 @@ Proof.
   exists y. split; [reflexivity|]. unfold load_from_disk. rewrite Hk by assumption. now rewrite E.
 Qed.
 
-Lemma saved_disk_has d d' base objs mean :
-  wf A d base -> saved A d d' base objs mean -> disk_has A d' base (Z.of_nat (length objs)).
+Lemma saved_disk_has d d' base objs mean rm :
+  wf A d base -> saved A d d' base objs mean rm -> disk_has A d' base (Z.of_nat (length objs)).
 Proof.
   intros W S. split; [eapply saved_wf; eassumption|]. destruct S as (S1 & S2 & _). split; [|assumption].
   intros k Hk. replace k with (Z.of_nat (Z.to_nat k)) by lia. rewrite S1 by lia.
@@ -66,9 +66,9 @@ Proof.
   intros W H1 Hc Ht Hr. unfold save_plain.
   assert (Ec : concat (map (map Plain) parts) = map Plain (concat parts)) by (symmetry; apply concat_map).
   assert (El : length (concat (map (map Plain) parts)) = length (concat parts)) by (rewrite Ec; apply map_length).
-  destruct (save_list_ok A d base (map (map Plain) parts) None ov) as [S1 S2]; [now rewrite El|].
-  split; [assumption|]. set (d' := fst (save_list A d base (map (map Plain) parts) None ov)) in *.
-  pose proof (saved_disk_has d d' base _ None W S2) as D.
+  destruct (save_list_ok A d base (map (map Plain) parts) None plain_save_unlinks_mean ov) as [S1 S2]; [now rewrite El|].
+  split; [assumption|]. set (d' := fst (save_list A d base (map (map Plain) parts) None plain_save_unlinks_mean ov)) in *.
+  pose proof (saved_disk_has d d' base _ None _ W S2) as D.
   unfold load_plain.
   assert (B := load_block d' base (concat (map (map Plain) parts)) ntask rank ltac:(lia) D (proj1 S2) Ht Hr).
   destruct (list_local_sample_files A d' base ntask rank) as [files| |]; cbn [bind] in B |- *; try discriminate.
@@ -87,11 +87,11 @@ Proof.
   intros W H1 Hc Ht Hr. unfold save_resid. set (R := fun rn : A * bool => Resid (fst rn) (snd rn)).
   assert (Ec : concat (map (map R) parts) = map R (concat parts)) by (symmetry; apply concat_map).
   assert (El : length (concat (map (map R) parts)) = length (concat parts)) by (rewrite Ec; apply map_length).
-  destruct (save_list_ok A d base (map (map R) parts) (Some (MeanC m)) ov) as [S1 S2]; [now rewrite El|].
-  split; [assumption|]. set (d' := fst (save_list A d base (map (map R) parts) (Some (MeanC m)) ov)) in *.
-  pose proof (saved_disk_has d d' base _ _ W S2) as D.
+  destruct (save_list_ok A d base (map (map R) parts) (Some (MeanC m)) false ov) as [S1 S2]; [now rewrite El|].
+  split; [assumption|]. set (d' := fst (save_list A d base (map (map R) parts) (Some (MeanC m)) false ov)) in *.
+  pose proof (saved_disk_has d d' base _ _ _ W S2) as D.
   unfold load_resid, load_from_disk at 1.
-  destruct S2 as (S2a & S2b & S2c & S2d). rewrite (S2c _ eq_refl). cbn [bind].
+  destruct S2 as (S2a & S2b & S2c & S2d & S2e). rewrite (S2c _ eq_refl). cbn [bind].
   assert (B := load_block d' base (concat (map (map R) parts)) ntask rank ltac:(lia) D S2a Ht Hr).
   destruct (list_local_sample_files A d' base ntask rank) as [files| |]; cbn [bind] in B |- *; try discriminate.
   rewrite B. cbn [bind]. rewrite Ec. unfold slice. rewrite map_length.
@@ -166,8 +166,8 @@ Proof.
   destruct (save_tasks A d1 base (start + Z.of_nat (length p)) rest ov) as [d2 r2]. assumption.
 Qed.
 
-Lemma wf_save_list d base parts mean ov :
-  wf A d base -> wf A (fst (save_list A d base parts mean ov)) base.
+Lemma wf_save_list d base parts mean rm ov :
+  wf A d base -> wf A (fst (save_list A d base parts mean rm ov)) base.
 Proof.
   intros W. unfold save_list, ensure_ending.
   set (n := Z.of_nat (length (concat parts))).
@@ -175,8 +175,11 @@ Proof.
                           else if isfile A d (sfn base n) then (d, true) else (d, false))) base).
   { destruct ov; [now apply wf_remove|]. now destruct (isfile A d (sfn base n)). }
   destruct (if ov then (remove A d (sfn base n), false)
-            else if isfile A d (sfn base n) then (d, true) else (d, false)) as [d1 [|]]; cbn [fst] in *; [assumption|].
-  pose proof (wf_save_tasks base ov parts d1 0 ltac:(lia) W1) as W2.
+            else if isfile A d (sfn base n) then (d, true) else (d, false)) as [d0 [|]]; cbn [fst] in *; [assumption|].
+  assert (W1' : wf A (if rm && ov then remove A d0 (mean_file_name base) else d0) base).
+  { destruct (rm && ov); [now apply wf_remove|assumption]. }
+  set (d1 := if rm && ov then remove A d0 (mean_file_name base) else d0) in *.
+  pose proof (wf_save_tasks base ov parts d1 0 ltac:(lia) W1') as W2.
   destruct (save_tasks A d1 base 0 parts ov) as [d2 [|]]; cbn [fst] in *; [assumption|].
   destruct mean as [m|]; [|assumption].
   pose proof (wf_save_to_disk d2 base (mean_file_name base) m ov W2) as W3.
